@@ -7,6 +7,7 @@ import (
 	"errors"
 	"fmt"
 	"io"
+	"math/rand"
 	"net"
 	"os"
 	"os/exec"
@@ -301,14 +302,29 @@ func (c *Child) Ctl(format string, a ...any) error {
 	return err
 }
 
+var portMu sync.Mutex
+var portRng = rand.New(rand.NewSource(time.Now().UnixNano() ^ int64(os.Getpid())<<20))
+var recentPorts = map[int]time.Time{}
+
+// FreePort picks a listening port below the kernel's ephemeral range (so that no outgoing connection of a
+// concurrently running shard can take it as its source port between this probe and the child's listen).
 func FreePort() (int, error) {
-	l, err := net.Listen("tcp", "127.0.0.1:0")
-	if err != nil {
-		return 0, err
+	portMu.Lock()
+	defer portMu.Unlock()
+	for i := 0; i < 2000; i++ {
+		p := 10000 + portRng.Intn(22000)
+		if t, used := recentPorts[p]; used && time.Since(t) < 2*time.Minute {
+			continue
+		}
+		l, err := net.Listen("tcp", fmt.Sprintf(":%d", p))
+		if err != nil {
+			continue
+		}
+		l.Close()
+		recentPorts[p] = time.Now()
+		return p, nil
 	}
-	p := l.Addr().(*net.TCPAddr).Port
-	l.Close()
-	return p, nil
+	return 0, errors.New("no free port found")
 }
 
 // StartEmu starts a fresh emulator instance in the child on a kernel-chosen
